@@ -277,6 +277,64 @@ def shuffle_body(case, ctx):
     ctx.nt(max(vals) >= 2 * min(vals) or len(vals) < len(case["pops"]))
 
 
+# ---------------------------------------------------------------- one splitter object, several data sets
+@st.composite
+def reuse_cases(draw):
+    first, second = draw(random_layout_case()), draw(random_layout_case())
+    occ = sum(1 for p in second["pops"] if p > 0)
+    kind = draw(st.sampled_from(["kfold", "kfold", "shuffle"]))
+    case = dict(first=first, second=second, kind=kind, seed=draw(st.sampled_from([0, 1, 42, 12345])))
+    if kind == "kfold":
+        case.update(n_splits=draw(st.integers(2, max(2, occ))), shuffle=draw(st.booleans()), balance=draw(st.sampled_from([True, True, False])))
+    else:
+        case.update(n_splits=draw(st.integers(1, 4)), balancing=draw(st.integers(1, 10)), test_size=draw(st.sampled_from([0.1, 0.25, 0.5])))
+    return case
+
+
+def _lay_of(c):
+    return dict(W=c["W"], S=c["S"], dx=c["dx"], dy=c["dy"], nb_n=c["nb_n"], nb_e=c["nb_e"], pres=c["pres"], te=c["te"], tn=c["tn"], pixel=c.get("pixel"))
+
+
+def reuse_body(case, ctx):
+    """A splitter holds parameters only: what it yields for a data set may not depend on the data sets it was asked to split before."""
+    lay_a, lay_b = _lay_of(case["first"]), _lay_of(case["second"])
+    xa, _ = make_X(lay_a, case["first"]["pops"], case["first"].get("perm"))
+    xb, _ = make_X(lay_b, case["second"]["pops"], case["second"].get("perm"))
+    kw = blocks.verde_kwargs(lay_b)
+
+    def make():
+        if case["kind"] == "kfold":
+            return vd.BlockKFold(n_splits=case["n_splits"], shuffle=case["shuffle"], balance=case["balance"], random_state=case["seed"], **kw)
+        return vd.BlockShuffleSplit(n_splits=case["n_splits"], test_size=case["test_size"], balancing=case["balancing"], random_state=case["seed"], **kw)
+
+    def run(cv, x):
+        with warnings.catch_warnings(record=True) as rec:
+            warnings.simplefilter("always")
+            try:
+                out = [(np.array(a), np.array(b)) for a, b in cv.split(x)]
+            except Exception as e:  # noqa: BLE001 - compared, not swallowed: both objects must behave alike
+                out = type(e).__name__
+        return out, sorted({str(w.message)[:60] for w in rec if issubclass(w.category, UserWarning)})
+
+    fresh, fresh_warn = run(make(), xb)
+    cv = make()
+    first, first_warn = run(cv, xa)
+    reused, reused_warn = run(cv, xb)
+    what = "%s(%s) used on another data set first" % ("BlockKFold" if case["kind"] == "kfold" else "BlockShuffleSplit",
+                                                      ", ".join("%s=%r" % (k, case[k]) for k in ("n_splits", "shuffle", "balance", "balancing", "test_size", "seed") if k in case))
+    if isinstance(fresh, str) or isinstance(reused, str):
+        ctx.check(fresh == reused, "%s: a fresh object gives %r, the reused one %r", what, fresh if isinstance(fresh, str) else "splits", reused if isinstance(reused, str) else "splits")
+    else:
+        ctx.check(len(fresh) == len(reused), "%s: %d splits instead of %d", what, len(reused), len(fresh))
+        for k, (f, r) in enumerate(zip(fresh, reused)):
+            ctx.check(np.array_equal(f[0], r[0]) and np.array_equal(f[1], r[1]),
+                      "%s: split %d differs from the split of a fresh object with the same parameters (test sets of %d and %d points; first call %s)",
+                      what, k, f[1].size, r[1].size, "raised " + first if isinstance(first, str) else "warned %r" % first_warn)
+        ctx.check(fresh_warn == reused_warn, "%s: warnings differ from those of a fresh object: %r vs %r", what, reused_warn, fresh_warn)
+    ctx.label(case["kind"], "first_raised" if isinstance(first, str) else "first_ok", *(["first_warned"] if first_warn else []), *(["second_warned"] if fresh_warn else []))
+    ctx.nt(not isinstance(fresh, str) and (isinstance(first, str) or bool(first_warn) or case["first"]["pops"] != case["second"]["pops"]))
+
+
 SUBCHECKS = [
     Sub("kfold_lattice", kfold_body, enumerate=kfold_lattice, shards_quick=16,
         doc="exhaustive small block-occupancy vectors x n_splits x shuffle x balance (x seeds): partition, whole blocks, non-empty disjoint folds, balance/fallback, rejection"),
@@ -284,4 +342,6 @@ SUBCHECKS = [
         doc="generated layouts (up to 5x5 blocks, populations 0..30, shape or spacing, shuffled sample order)"),
     Sub("shuffle_random", shuffle_body, strategy=shuffle_random(), quick=300, thorough=2500, shards_quick=2,
         doc="BlockShuffleSplit: partition, whole blocks, prescribed number of test blocks, best-balanced candidate, reproducibility, impossible sizes rejected"),
+    Sub("reuse", reuse_body, strategy=reuse_cases(), quick=300, thorough=2500, shards_quick=2,
+        doc="one splitter object asked to split two different data sets: the second answer (splits, warnings or error) equals that of a fresh object with the same parameters"),
 ]
